@@ -74,7 +74,7 @@ _SC = [["scan", "128", "k25", "k312", "k911", "k303"], ["scan", "8", "a", "b", "
 BOUNDED_SCEN = {
     "C01": _H + [["putget", "5000"], ["putsweep"], ["keys"], ["pertype"]], "C10": [["keys"], ["pertype"]], "C02": [["reopen"], ["durable"], ["dbsync"], ["names"]] + _H[:4], "C03": [["flushdur"], ["durable"], ["dbsync"], ["syncfail"]],
     "C04": _SC + _H[:2] + [["pertype"]], "C05": _H + [["reuse"]], "C06": [["reuse"], ["putsweep"], ["grow"]] + _H, "C07": [["bufsize", "131072"], ["bufsize", "1000"], ["reopen"], ["dbsync"], ["scan", "4", "a"]] + _H[:1],
-    "C08": _H, "C09": [["putget", "5000"], ["putget", "70000"], ["putsweep"]], "C12": [["reopen"], ["sigmut"]], "C13": [["sigmut"]], "C15": [["readonly"]],
+    "C08": _H, "C09": [["putget", "5000"], ["putget", "70000"], ["putsweep"], ["values"]], "C12": [["reopen"], ["sigmut"]], "C13": [["sigmut"]], "C15": [["readonly"]],
     "C14": [["bulk"]], "C16": [["flushdur"], ["syncfail"]], "C17": [["stats"]], "C18": [["determ"]],
 }
 _replay_built = [False]
